@@ -235,7 +235,7 @@ def run_binary(ctx, program, cfg=None, named=None, env_cfg=None, text=False, tim
         rc, so, se, fail = -1, "", "", "HANG: binary did not finish within %ds" % timeout
     res = {"rc": rc, "stdout": so, "stderr": se, "fail": fail, "root": root, "cmd": cmd}
     if fail is None:
-        if "panic:" in se or "internal error" in se or "goroutine " in se and "runtime." in se:
+        if vlib.crashed(se):
             res["fail"] = "crash: " + se[-1500:]
         if not text:
             res["diags"], errs = parse_json_tree(so, root)
@@ -270,7 +270,7 @@ def run_vet(ctx, program, cfg=None, named=None, env_cfg=None, timeout=300, keep=
         # go vet -json writes the JSON trees to stderr
         diags, errs = parse_json_tree(se, root, modpath)
         res["diags"] = dedup(diags)
-        if "panic:" in se or "internal error" in se:
+        if vlib.crashed(se):
             res["fail"] = "crash: " + se[-1500:]
         elif errs:
             res["fail"] = "analyzer errors: " + "; ".join(errs)[:1500]
